@@ -45,6 +45,20 @@ CLAIMED = {
              'in that respect); the C compiler is stubbed in replay (the disk half is C20).',
         technique='TLA+ cache state machine (VFormCache.tla) checked by TLC on abstract and measured key/source tables + replay of TLC behaviours into the real compile_vform',
         design_ref='3 C13'),
+    'C04': dict(
+        text='spec/HSpace.tla has the declarative characterisation (refinement regions, activation rule, tiling, disparity) '
+             'and a code-shaped model of refine(); TLC checks FunChar, Disjoint, Nested, Tiling, DisparityOK, LevelsOK on every '
+             'state reachable by <= 3 calls over all admissible mark families (1-D exhaustive, 2-D 2x2 with <= 2 marked cells or '
+             'a whole level per call), disparity 1/2/inf, both marking modes. Every distinct reachable state is replayed on the '
+             'real HSpace (marks as set/list/tuple), the recorded events are validated by spec/HSpaceTrace.tla at property '
+             'level, and canonical order, incidence matrix and compute_supports are compared with the spec; spec/HRepr.tla '
+             'adds the exact HB/THB representation matrices (linear independence, THB partition of unity/non-negativity, '
+             'HB<->THB transforms). Thorough also validates refine events recorded from the repository tests.',
+        note='Uniform dyadic refinement of open knot vectors with simple interior knots, degrees <= 4, <= 4 levels, 1-D and 2-D '
+             '(no 3-D); DisparityOK is stated for the default marking only; an admissible closure different from the model is '
+             'accepted (reported as a note).',
+        technique='TLA+ state machine (HSpace.tla) + TLC exhaustive exploration + replay of one history per reachable state + TLC trace validation (HSpaceTrace.tla) of recorded refine events',
+        design_ref='3 C04'),
 }
 
 NOT_BUILT = 'specification module not built yet (see DESIGN.md section 6); not claimed with a weaker technique'
